@@ -392,11 +392,21 @@ func runC19(c *Case, out func(string)) {
 		id := string(tok(h[1:]))
 		return id, byID[id]
 	}
+	// a call that is not expected to wait for a lock gets 20 s; if it runs into that limit the
+	// service is stuck (e.g. a lock leaked by an earlier request): the rest of the program would
+	// only repeat the wait, so the case ends there (hungCalls is checked at the top of the loop)
+	hungCalls := 0
 	ctxFor := func(blocked bool) (context.Context, context.CancelFunc) {
 		if blocked {
 			return context.WithTimeout(context.Background(), c19BlockedWait)
 		}
-		return context.WithTimeout(context.Background(), 120*time.Second)
+		ctx, cancel := context.WithTimeout(context.Background(), 20*time.Second)
+		return ctx, func() {
+			if ctx.Err() == context.DeadlineExceeded {
+				hungCalls++
+			}
+			cancel()
+		}
 	}
 	// statistics for META
 	nReq, nRej, nTxOwn, nScanHit, nBlocked, nHandleDead := 0, 0, 0, 0, 0, 0
@@ -496,6 +506,10 @@ func runC19(c *Case, out func(string)) {
 	}
 
 	for i := 0; i < len(c.Lines); i++ {
+		if hungCalls > 0 {
+			fail(fmt.Sprintf("a request that needs no lock held by this client did not return within 20 s (before line %d: %s); the rest of the program is not run", i, strings.Join(c.Lines[i-1], " ")))
+			break
+		}
 		l := c.Lines[i]
 		kinds[l[0]]++
 		if l[0] != "flush" {
